@@ -55,11 +55,12 @@ type aliasEv struct {
 }
 
 type aliasSummary struct {
-	writes     map[int]bool // parameter positions (receiver excluded) the function may write or append through
-	modelled   map[int]bool // … and the translation returns the written value (mutParam): a write the model sees
-	stores     map[int]bool // parameter positions whose storage the receiver may still reference after the call
-	recvWrites bool         // writes ELEMENTS reachable from its receiver (re-binding the receiver, `*s = (*s)[n:]`, is not a write)
-	returns    map[int]bool // parameter positions its slice results may share storage with
+	writes      map[int]bool // parameter positions (receiver excluded) the function may write or append through
+	modelled    map[int]bool // … and the translation returns the written value (mutParam): a write the model sees
+	stores      map[int]bool // parameter positions whose storage the receiver may still reference after the call
+	recvAppends bool         // appends to slices reachable from its receiver (spare capacity: not an element write)
+	recvWrites  bool         // writes ELEMENTS reachable from its receiver (re-binding the receiver, `*s = (*s)[n:]`, is not a write)
+	returns     map[int]bool // parameter positions its slice results may share storage with
 }
 
 type aliasAn struct {
@@ -70,6 +71,7 @@ type aliasAn struct {
 	arms   []armRef
 	loops  []ast.Node
 	params map[string]int
+	fresh  map[string][]ast.Node // local variable -> the loops around its declaration (a new variable in every iteration of those)
 }
 
 func constInt(info *types.Info, e ast.Expr) (int, bool) {
@@ -161,6 +163,52 @@ func (an *aliasAn) window(e ast.Expr) (string, int, int, bool) {
 		}
 	}
 	return "", 0, 0, false
+}
+
+// declare: a local variable is declared here
+func (an *aliasAn) declare(name string) {
+	if an.fresh == nil {
+		an.fresh = map[string][]ast.Node{}
+	}
+	cur := append([]ast.Node{}, an.loops...)
+	if old, ok := an.fresh[name]; ok { // declared twice: only the loops around both declarations count
+		var both []ast.Node
+		for _, a := range old {
+			for _, b := range cur {
+				if a == b {
+					both = append(both, a)
+				}
+			}
+		}
+		cur = both
+	}
+	an.fresh[name] = cur
+}
+
+func rootOf(path string) string {
+	if i := strings.Index(path, "."); i >= 0 {
+		return path[:i]
+	}
+	return path
+}
+
+// excluded: the loops in which BOTH variables are new in every iteration (no storage of one iteration is
+// reachable through them in another)
+func (an *aliasAn) excluded(p, q string) map[ast.Node]bool {
+	x := map[ast.Node]bool{}
+	fp, okp := an.fresh[rootOf(p)]
+	fq, okq := an.fresh[rootOf(q)]
+	if !okp || !okq {
+		return x
+	}
+	for _, a := range fp {
+		for _, b := range fq {
+			if a == b {
+				x[a] = true
+			}
+		}
+	}
+	return x
 }
 
 func (an *aliasAn) add(kind byte, a, b string, lo, hi int, pos token.Pos, what string) {
@@ -355,6 +403,9 @@ func (an *aliasAn) call(c *ast.CallExpr, dst string) {
 		if p, ok := pathOf(recv); ok && callee != nil && callee.mutRecv {
 			if sm := an.sums[callee]; sm == nil || sm.recvWrites {
 				an.add('w', p, "", -1, -1, c.End(), t.src(c))
+			} else if sm.recvAppends {
+				an.add('W', p, "", -1, -1, c.End(), t.src(c))
+				an.reads(recv)
 			} else {
 				an.reads(recv) // the callee only re-binds its receiver (a slice header, a field)
 			}
@@ -440,7 +491,8 @@ func subOf(e ast.Expr) string {
 		}
 		break
 	}
-	if _, ok := e.(*ast.SliceExpr); ok {
+	// x[lo:] ends where x ends: an append through it writes only beyond what x shows
+	if se, ok := e.(*ast.SliceExpr); ok && se.High != nil {
 		return "sub"
 	}
 	return ""
@@ -532,6 +584,7 @@ func (an *aliasAn) stmt(s ast.Stmt) {
 			for _, sp := range gd.Specs {
 				if vs, ok := sp.(*ast.ValueSpec); ok {
 					for i, nm := range vs.Names {
+						an.declare(nm.Name)
 						if i < len(vs.Values) {
 							an.bind(nm, vs.Values[i])
 						}
@@ -540,6 +593,13 @@ func (an *aliasAn) stmt(s ast.Stmt) {
 			}
 		}
 	case *ast.AssignStmt:
+		if x.Tok == token.DEFINE {
+			for _, l := range x.Lhs {
+				if id, ok := l.(*ast.Ident); ok && t.info.Defs[id] != nil {
+					an.declare(id.Name)
+				}
+			}
+		}
 		if len(x.Rhs) == 1 && len(x.Lhs) > 1 {
 			// a, b = f(...): every slice result may alias what the call's result aliases
 			bound := false
@@ -627,7 +687,10 @@ func compatible(x, y *aliasEv) bool {
 }
 
 // follows: y can execute after x
-func follows(x, y *aliasEv) bool {
+func follows(x, y *aliasEv) bool { return followsX(x, y, nil) }
+
+// followsX: … not counting a new iteration of the loops in ex
+func followsX(x, y *aliasEv, ex map[ast.Node]bool) bool {
 	if !compatible(x, y) {
 		return false
 	}
@@ -636,7 +699,7 @@ func follows(x, y *aliasEv) bool {
 	}
 	for _, a := range x.loops {
 		for _, b := range y.loops {
-			if a == b {
+			if a == b && !ex[a] {
 				return true
 			}
 		}
@@ -702,9 +765,10 @@ func (an *aliasAn) hazards() []string {
 	seen := map[string]bool{}
 	var out []string
 	for _, ed := range edges {
+		ex := an.excluded(ed.a, ed.b)
 		for wi := range an.evs {
 			w := &an.evs[wi]
-			if (w.kind != 'w' && w.kind != 'W') || !(follows(ed.ev, w) || (w.pos == ed.ev.pos && compatible(ed.ev, w))) {
+			if (w.kind != 'w' && w.kind != 'W') || !(followsX(ed.ev, w, ex) || (w.pos == ed.ev.pos && compatible(ed.ev, w))) {
 				continue
 			}
 			if !compatible(ed.ev, w) {
@@ -716,7 +780,7 @@ func (an *aliasAn) hazards() []string {
 				}
 				for ri := range an.evs {
 					r := &an.evs[ri]
-					if r.kind != 'r' || !touches(r.a, side[1]) || !follows(w, r) || !compatible(ed.ev, r) {
+					if r.kind != 'r' || !touches(r.a, side[1]) || !followsX(w, r, ex) || !compatible(ed.ev, r) {
 						continue
 					}
 					// the operation that writes also creates the alias (a := append(b[:0], …), a := h.Sum(b)):
@@ -785,7 +849,7 @@ func (an *aliasAn) hazards() []string {
 			}
 			for ri := range an.evs {
 				r := &an.evs[ri]
-				if r.kind != 'r' || !follows(w, r) || !compatible(ce, r) {
+				if r.kind != 'r' || !followsX(w, r, an.excluded(w.a, r.a)) || !compatible(ce, r) {
 					continue
 				}
 				var msg string
@@ -809,7 +873,7 @@ func (an *aliasAn) hazards() []string {
 		}
 		for ri := range an.evs {
 			r := &an.evs[ri]
-			if r.kind == 'r' && touches(r.a, w.a) && follows(w, r) {
+			if r.kind == 'r' && touches(r.a, w.a) && followsX(w, r, an.excluded(w.a, r.a)) {
 				msg := fmt.Sprintf("`%s` may overwrite elements of %s and `%s` then reads %s", w.what, w.a, r.what, r.a)
 				if !seen[msg] {
 					seen[msg] = true
@@ -904,7 +968,11 @@ func aliasAnalyse(t *tr, m *fnMeta, sums map[*fnMeta]*aliasSummary) []string {
 		if e.kind == 'w' || e.kind == 'W' {
 			for q := range related(e.a) {
 				if recvName != "" && touches(q, recvName) {
-					sum.recvWrites = true
+					if e.kind == 'w' {
+						sum.recvWrites = true
+					} else {
+						sum.recvAppends = true
+					}
 				}
 				if i, ok := an.params[q]; ok {
 					sum.writes[i] = true
